@@ -14,7 +14,7 @@ Theorem C11_by_number : with_table (fun T => forallb (num_ok T) all_settings) = 
 Proof. exact by_number_b. Qed.
 Print Assumptions C11_by_number.
 
-(* short and full Hermann-Mauguin symbol of every setting, in each of the 9 case/spacing variants of `variants`,
+(* short and full Hermann-Mauguin symbol of every setting, in each of the 15 case/spacing variants of `variants`,
    returns a setting that carries that symbol (compared modulo case and blanks) *)
 Theorem C11_by_name_any_case_and_spacing : with_table (fun T => forallb (names_ok T) all_settings) = true.
 Proof. exact by_name_b. Qed.
